@@ -27,6 +27,11 @@ PROP = dict(
         dict(module="MCRoundTripConc", cfg=dict(quick="MCRoundTripConc_quick.cfg", thorough="MCRoundTripConc_thorough.cfg"),
              timeout=dict(quick=300, thorough=600)),
         dict(module="MCRoundTripConc", cfg="MCRoundTripConc_mut_sharedbound.cfg", expect_violation="EachGetsItsOwn", timeout=300),
+        # path values that spell a sibling placeholder x substitution order; an apiKey that is also a declared parameter; codec tables per Runtime
+        dict(module="MCRoundTripConfig", cfg="MCRoundTripConfig.cfg", timeout=300),
+        dict(module="MCRoundTripConfig", cfg="MCRoundTripConfig_mut_multipass.cfg", expect_violation="SubstAgreesMC", timeout=300),
+        dict(module="MCRoundTripConfig", cfg="MCRoundTripConfig_mut_stripkey.cfg", expect_violation="KeyParamBoundMC", timeout=300),
+        dict(module="MCRoundTripConfig", cfg="MCRoundTripConfig_mut_sharedcodecs.cfg", expect_violation="OwnCodecsMC", timeout=300),
     ],
     level_text="RoundTrip carries compact encode / transport / decode tables per parameter location (path: PathEscape -> EscapedPath, "
                "path.Clean, segment match, PathUnescape; query and urlencoded form: QueryEscape -> ParseQuery; header: verbatim -> OWS "
@@ -44,7 +49,10 @@ PROP = dict(
                "driven: form fields are bound from the body alone although the URL's query (static parameters of the base path / pattern) "
                "has same-named keys; upload sources that fail deliver nothing and the caller is told; response bodies delivered in pieces "
                "reach the reader intact with and without connection re-use; concurrent requests of one operation (all interleavings of "
-               "bind / invoke in TLC; batches of 8/64 goroutines in the driver) each invoke the handler exactly once with their own values.",
+               "bind / invoke in TLC; batches of 8/64 goroutines in the driver) each invoke the handler exactly once with their own values; "
+               "placeholders are substituted in one pass (values spelling a sibling placeholder, every visiting order); an apiKey that is "
+               "also a declared parameter is bound after authentication; every Runtime has codec tables of its own (another Runtime "
+               "customised before / between the session's calls).",
     level_note="bounded exhaustive at model level; real code bound by trace validation of the executed exchanges only; JSON values are "
                "compared by canonical re-encoding, file and body contents by SHA-256 (harness abstraction functions)",
     design_ref="DESIGN.md 4.4",
@@ -68,7 +76,12 @@ PROP = dict(
          "(alone, as one of two files, between healthy uploads); EnableConnectionReuse on/off x bodies in 1/2/5/40 flushed pieces x sizes "
          "to 100 kB (thorough 1 MB) x 6 operations; concurrent batches: 7 operations x 8/64 goroutines x GOMAXPROCS 1/4/16 x wire / in-"
          "process transport x rendezvous groups (middleware.VerifHook, stage bound) + 8 batches of 4000 (thorough 20000) calls in groups "
-         "of 8 on 16 procs, every call with values of its own, events emitted in call order.",
+         "of 8 on 16 procs, every call with values of its own, events emitted in call order; 8 long batches of 50 000 (thorough 120 000) "
+         "calls recorded by lean `call` events (tag sent, tag echoed, invocations filed under the tag). Path values {q}, x{q}y, {q}{q}, "
+         "%7Bq%7D for every ordered pair of path parameters of 7 operations, each call 4 times; APIs secured by an apiKey (header / "
+         "query, plain / Ctx authenticator) whose key is also a declared (required or optional) parameter x auth writer / signing "
+         "writer / parameter alone; 4 customisations of other Runtimes (envelope producers, broken consumers, deleted codecs, swapped "
+         "codecs) before the session's Runtime exists and between its calls.",
     assumptions=COMMON_ASSUME + [
         "no two operations of an API differ only by a literal segment that a supplied path value could equal (literal routes win by design)",
         "integers and booleans are supplied in their canonical text; body parameters are JSON objects or arrays, or strings (valid UTF-8) sent as JSON or as non-empty text/plain (text consumer adapted to the untyped binder's interface{} target); array parameters use collectionFormat multi",
